@@ -26,7 +26,7 @@ var shimDirs = []string{"sm2", "sm3", "sm4", "sm4/padding", "x509", "gmtls", "pk
 
 // statement-level points: file -> function names ("*" = every function in the file)
 var stmtFuncs = map[string][]string{
-	"sm4/sm4.go":  {"cryptBlock", "Encrypt", "Decrypt", "permuteInitialBlock", "permuteFinalBlock", "Sm4Ecb", "Sm4Cbc", "Sm4CFB", "Sm4OFB", "pkcs7Padding", "pkcs7UnPadding", "xor"},
+	"sm4/sm4.go":  {"*"},
 	"x509/ber.go": {"*"},
 	"sm2/p256.go": {"initP256Sm2", "P256Sm2"},
 	"sm3/sm3.go":  {"Write", "Sum", "Reset", "pad", "Sm3Sum", "New"},
